@@ -10,7 +10,7 @@ use zvcore::world;
 
 #[derive(Clone, Debug)]
 struct Params {
-    /// identity kind per peer: 0 announced 1 byte, 1 announced 255 bytes, 2 auto-assigned, 3 prefix chain (k, kk, kkk), 4 255 bytes differing in the last byte
+    /// identity kind per peer: 0 announced 1 byte, 1 announced 255 bytes, 2 auto-assigned (no Identity property), 6 auto-assigned (empty Identity property), 3 prefix chain (k, kk, kkk), 4 255 bytes differing in the last byte
     ids: Vec<u8>,
     msgs: usize,
     /// the last peer closes both directions before the sends
@@ -26,6 +26,8 @@ fn announced(kind: u8, p: usize) -> Option<Vec<u8>> {
         3 => Some(vec![b'k'; p + 1]),
         // ... or 255 bytes that differ in the very last byte only
         4 => Some((0..255).map(|i| if i == 254 { b'0' + p as u8 } else { b'q' }).collect()),
+        // scale family: any number of peers
+        5 => Some(format!("peer-{}", p).into_bytes()),
         _ => None,
     }
 }
@@ -36,7 +38,10 @@ fn scenario(pr: &Params) -> Verdict {
     let conns: Vec<e3::RawConn> = (0..n).map(|p| e3::raw_conn(&format!("P{}", p))).collect();
     let mut sent: Vec<Vec<Vec<Vec<u8>>>> = Vec::new();
     for (p, c) in conns.iter().enumerate() {
-        c.send(&rc::handshake("DEALER", announced(pr.ids[p], p).as_deref()));
+        // kind 6: an Identity property of length 0 on the wire (what libzmq peers without a routing id send):
+        // the socket must assign a unique identity as if none had been announced
+        let on_wire = if pr.ids[p] == 6 { Some(Vec::new()) } else { announced(pr.ids[p], p) };
+        c.send(&rc::handshake("DEALER", on_wire.as_deref()));
         let mut mine = Vec::new();
         for j in 0..pr.msgs {
             let m: Vec<Vec<u8>> = if j % 2 == 0 {
@@ -74,9 +79,10 @@ fn scenario(pr: &Params) -> Verdict {
     let (got2, sends2, ids2) = (got.clone(), sends.clone(), ids.clone());
     let conns2 = conns.clone();
     let leaves = pr.last_peer_leaves;
+    let (n_peers, n_msgs) = (n, pr.msgs);
     world::spawn_app("app", async move {
         let mut sock = sock;
-        for _ in 0..30 {
+        for _ in 0..(30 + n_peers * n_msgs) {
             match world::until_idle(sock.recv()).await {
                 Some(Ok(m)) => {
                     world::log(format!("recv -> message of {} frames", m.len()));
@@ -98,6 +104,8 @@ fn scenario(pr: &Params) -> Verdict {
         targets.push(("unknown".into(), b"no-such-peer".to_vec(), None));
         targets.push(("unknown16".into(), vec![0xEE; 16], None));
         for (name, id, dest) in targets {
+            // time passes between two calls of the application: everything else may run here
+            world::yield_now().await;
             let before: Vec<usize> = conns2.iter().map(|c| world::tap_len(c.from_lib)).collect();
             let body = vec![id.clone(), format!("to-{}", name).into_bytes(), vec![], b"z".to_vec()];
             let r = sock.send(msg(&body)).await;
@@ -123,7 +131,7 @@ fn scenario(pr: &Params) -> Verdict {
         world::wait_cond("never").await;
         drop(sock);
     });
-    let end = world::run(e3::HORIZON);
+    let end = world::run(e3::HORIZON * (1 + n as u64 / 4));
     let mut v = Verdict::default();
     v.truncated = end != world::RunEnd::Quiescent;
     let what = format!("ROUTER with peers {:?} (0=1-byte id, 1=255-byte id, 2=auto, 3=ids that are prefixes of one another, 4=255-byte ids differing in the last byte), {} messages each{}", pr.ids, pr.msgs, if pr.last_peer_leaves { ", last peer closes" } else { "" });
@@ -389,9 +397,9 @@ pub fn run(tier: Tier, replay: Option<String>) -> i32 {
         });
     }
     let mut jobs = Vec::new();
-    let mut idsets: Vec<Vec<u8>> = vec![vec![0], vec![2], vec![0, 1], vec![0, 2], vec![2, 2], vec![1, 2], vec![3, 3], vec![4, 4]];
+    let mut idsets: Vec<Vec<u8>> = vec![vec![0], vec![2], vec![0, 1], vec![0, 2], vec![2, 2], vec![1, 2], vec![3, 3], vec![4, 4], vec![6], vec![6, 6], vec![6, 2], vec![0, 6]];
     if tier == Tier::Thorough {
-        idsets.extend([vec![0, 1, 2], vec![2, 2, 2], vec![0, 0, 0], vec![3, 3, 3], vec![4, 4, 4]]);
+        idsets.extend([vec![0, 1, 2], vec![2, 2, 2], vec![0, 0, 0], vec![3, 3, 3], vec![4, 4, 4], vec![6, 6, 6]]);
     }
     for ids in idsets {
         for leaves in [false, true] {
@@ -400,6 +408,16 @@ pub fn run(tier: Tier, replay: Option<String>) -> i32 {
                 let pr2 = pr.clone();
                 let bound = if ids.len() >= 3 { tier.pick(2, 3) } else { tier.pick(3, 4) };
                 jobs.push(e3::job(format!("C09/{:?}/{}/policy{}", ids, leaves, policy), pj(&pr), bound, tier.pick(600_000, 8_000_000), move || scenario(&pr2)));
+            }
+        }
+    }
+    // scale family (not exhaustive in n): many peers, default schedules
+    for &n in tier.pick(&[17usize, 65, 130][..], &[17usize, 65, 130, 257, 520][..]) {
+        for kind in [2u8, 5] {
+            for policy in 0..3u8 {
+                let pr = Params { ids: vec![kind; n], msgs: 1, last_peer_leaves: false, policy };
+                let pr2 = pr.clone();
+                jobs.push(e3::job(format!("C09/scale/{}peers/kind{}/policy{}", n, kind, policy), pj(&pr), 0, 1000, move || scenario(&pr2)));
             }
         }
     }
@@ -429,7 +447,7 @@ pub fn run(tier: Tier, replay: Option<String>) -> i32 {
     ck.cov("transitions", ex);
     ck.cov("traces_validated_against_impl", ex);
     ck.cov("exhaustive", ck.coverage.get("e3_scenarios_capped").and_then(|v| v.as_u64()) == Some(0));
-    ck.cov("explanation", "ROUTER socket with 1-3 raw peers whose identities are announced (1 byte / 255 bytes / each a proper prefix of the next / 255 bytes differing in the last byte only) or auto-assigned, each sending 2 multipart messages (one starting with an empty frame); every schedule within the deviation bound over attach order, delivery order, yield points and deliveries landing inside pipe reads, from 3 default policies. Oracle: the first frame of every recv result is the identity returned by that connection's attach (the announced one when present, else a unique 16-byte value) and the remaining frames are the reference decode of what that peer wrote, per peer in order; then a send to each identity must appear, minus its first frame, on exactly that peer's wire and on no other; unknown identities must fail with no wire growing; a peer that has closed must not cause bytes on any other wire. Reconnect family: a peer with an announced identity leaves and a new connection announces the same identity while the application is not inside recv: the send for that identity must reach the new connection and nothing the stale one. Abandoned-send family: a send to A is dropped while A's connection accepts nothing (once nothing else can happen, or after 1..2 (thorough 4) polls; short and 200 kB messages), then the connection recovers: later sends to A and B must succeed and arrive whole, in order, on exactly the addressed peer's wire. states = distinct observed outcomes; transitions = executions.");
+    ck.cov("explanation", "ROUTER socket with 1-3 raw peers whose identities are announced (1 byte / 255 bytes / each a proper prefix of the next / 255 bytes differing in the last byte only) or auto-assigned (no Identity property, or one of length 0), each sending 2 multipart messages (one starting with an empty frame); every schedule within the deviation bound over attach order, delivery order, yield points and deliveries landing inside pipe reads, from 3 default policies. Oracle: the first frame of every recv result is the identity returned by that connection's attach (the announced one when present, else a unique 16-byte value) and the remaining frames are the reference decode of what that peer wrote, per peer in order; then a send to each identity must appear, minus its first frame, on exactly that peer's wire and on no other; unknown identities must fail with no wire growing; a peer that has closed must not cause bytes on any other wire. Reconnect family: a peer with an announced identity leaves and a new connection announces the same identity while the application is not inside recv: the send for that identity must reach the new connection and nothing the stale one. Scale family (not exhaustive in n): 17 / 65 / 130 (thorough 257, 520) peers with announced or auto-assigned identities, one message each, then a send to every identity, default schedules. Abandoned-send family: a send to A is dropped while A's connection accepts nothing (once nothing else can happen, or after 1..2 (thorough 4) polls; short and 200 kB messages), then the connection recovers: later sends to A and B must succeed and arrive whole, in order, on exactly the addressed peer's wire. states = distinct observed outcomes; transitions = executions.");
     ck.assume("single-frame ROUTER sends are outside the statement and not issued");
     ck.conclude()
 }
